@@ -96,6 +96,7 @@ class Parser:
         # we do not require a single rule for the start symbol
         if len(grammar.get(self._start_symbol, [])) != 1:
             self.cgrammar["<>"] = [[self._start_symbol]]
+            self._start_symbol = "<>"
 
     def grammar(self) -> Grammar:
         """Return the grammar of this parser."""
